@@ -67,7 +67,7 @@ CHECKS = {
    technique=TECH+"all condition trees up to a size bound and all call sequences up to depth 3, oracle = three-valued truth tables on a real SQLite engine",
    ref="3.6"),
  "C07": dict(
-   text="Explicit-state BFS over builder-call histories of the real SelectStatement (57-op menu: columns, 12 expression kinds incl. CASE / functions / custom templates / scalar subqueries, window functions with frames, DISTINCT, FROM table / alias / subquery / VALUES, every join type, and_where / cond_where / IN-subquery / EXISTS, GROUP BY, HAVING, UNION / INTERSECT / EXCEPT, ORDER BY with NULLS and FIELD, LIMIT / OFFSET, CTE) to depth 4 (quick) / 5 (thorough), and of INSERT (VALUES / SELECT / DEFAULT VALUES / REPLACE / 11 ON CONFLICT variants / RETURNING), UPDATE (SET, FROM, WHERE, ORDER BY, LIMIT, RETURNING) and DELETE to depth 4 / 5. In every state whose independently written, fully explicit reference rendering the real SQLite engine accepts, to_string and build+bind are executed on the engine inside a rolled-back transaction and must give the reference's result rows (ordered when ORDER BY is present), RETURNING rows, changes() and table contents. In addition every public convenience method of the four statement builders, OnConflict and ReturningClause (89 variants: left_join .. full_outer_join, join_as, join_subquery, columns, exprs, expr_window*, from_as / from_subquery / from_values / from_function, group_by_columns, and_where_option, conditions, apply_if, the order_by_* family on SELECT / UPDATE / DELETE, lock_shared / lock_exclusive, unions, values_panic / values_from_panic, returning_col / returning_all, update_column(s), value(s) ...) is applied on top of every base statement (all sequences of <= 2 canonical calls) and must render exactly like its canonical spelling (text and bound values, both modes), which reduces its meaning to the canonical method's, decided by the state machine.",
+   text="Explicit-state BFS over builder-call histories of the real SelectStatement (57-op menu: columns, 12 expression kinds incl. CASE / functions / custom templates / scalar subqueries, window functions with frames, DISTINCT, FROM table / alias / subquery / VALUES, every join type, and_where / cond_where / IN-subquery / EXISTS, GROUP BY, HAVING, UNION / INTERSECT / EXCEPT, ORDER BY with NULLS and FIELD, LIMIT / OFFSET, CTE) to depth 4 (quick) / 5 (thorough), and of INSERT (VALUES / SELECT / DEFAULT VALUES / REPLACE / 11 ON CONFLICT variants / RETURNING), UPDATE (SET, FROM, WHERE, ORDER BY, LIMIT, RETURNING) and DELETE to depth 4 / 5. In every state whose independently written, fully explicit reference rendering the real SQLite engine accepts, to_string and build+bind are executed on the engine inside a rolled-back transaction and must give the reference's result rows (ordered when ORDER BY is present), RETURNING rows, changes() and table contents. In addition every public convenience method of the four statement builders, OnConflict and ReturningClause (89 variants: left_join .. full_outer_join, join_as, join_subquery, columns, exprs, expr_window*, from_as / from_subquery / from_values / from_function, group_by_columns, and_where_option, conditions, apply_if, the order_by_* family on SELECT / UPDATE / DELETE, lock_shared / lock_exclusive, unions, values_panic / values_from_panic, returning_col / returning_all, update_column(s), value(s) ...) is applied on top of every base statement (all sequences of <= 2 canonical calls) and must render exactly like its canonical spelling (text and bound values, both modes), which reduces its meaning to the canonical method's, decided by the state machine. The dialect-construct families of C08 (named WINDOW with all 32 subsets of surrounding clauses, ORDER BY forms x NULLS x FIELD on SELECT / window / UPDATE / DELETE, join forms, CTE options incl. [NOT] MATERIALIZED, enum casts, and index hints / DISTINCT ON / TABLESAMPLE / locking, which SQLite must drop) are executed on the engine as well: about 600 statements, each against the explicit SQLite reference text of the same declaration.",
    note="Trusted: the explicit reference renderer (qmodel.rs / dml.rs), written from SQLite's syntax diagrams; states whose REFERENCE the engine rejects are out of domain (counted by reason; every op class must occur in executed states or the run is a machinery failure). Nested statements come from a representative pool of 4. Two genuine defects repaired by fix: commits.",
    technique=TECH+"BFS over builder-call histories with state deduplication, oracle = differential execution on a real SQLite engine against a reference rendering",
    ref="3.7"),
